@@ -53,6 +53,10 @@ def run(case):
             out = ["ok"] + [sq(v) for v in r]
             if data != before:
                 out.append(["input-changed"])
+            # the documented return type is the type of the input sequence
+            rt = cu.scale_sequence_to_sum(tuple(data), q(case[1]))
+            if not isinstance(r, list) or not isinstance(rt, tuple) or list(rt) != list(r):
+                out.append(["sequence-type-changed"])
             return out
         if k == "acc":
             return ["ok"] + list(cu.accumulate_from_n([int(x) for x in case[2:]], int(case[1])))
@@ -86,7 +90,14 @@ def run(case):
             exact = float(Fraction(k_, 10 ** digits)) == r
             return ["ok", k_, "nearest-double" if exact else "not-the-nearest-double"]
         if k == "uniq":
-            return ["ok"] + list(cu.uniqify_sequence([int(x) for x in case[1:]]))
+            data = [int(x) for x in case[1:]]
+            r = list(cu.uniqify_sequence(data))
+            out = ["ok"] + r
+            # the documented purpose: items that are not hashable (here one-element lists), and the sequence type is kept
+            boxed = cu.uniqify_sequence(tuple([x] for x in data))
+            if not isinstance(boxed, tuple) or [b[0] for b in boxed] != r:
+                out.append(["unhashable-variant-differs"])
+            return out
         if k == "nget":
             n = nest(case[1])
             path = [int(i) for i in case[2:]]
@@ -122,7 +133,12 @@ def run(case):
         if k == "kwarg":
             d = {f"p{a}": b for a, b in pairs(case[1])}
             r = cc.MutwoParameterDictToKeywordArgument(f"p{int(case[2])}", f"k{int(case[3])}").convert(d)
-            return ["ok", "none"] if r is None else ["ok", int(r[0][1:]), r[1]]
+            out = ["ok", "none"] if r is None else ["ok", int(r[0][1:]), r[1]]
+            # the keyword defaults to the parameter name when it is not given
+            r2 = cc.MutwoParameterDictToKeywordArgument(f"p{int(case[2])}").convert(d)
+            if (r is None) != (r2 is None) or (r2 is not None and (r2[0] != f"p{int(case[2])}" or r2[1] != r[1])):
+                out.append(["default-keyword-differs"])
+            return out
         if k == "chronon":
             d = {f"p{a}": b for a, b in pairs(case[1])}
             convs = [cc.MutwoParameterDictToKeywordArgument(f"p{a}", f"k{b}") for a, b in pairs(case[2])]
@@ -142,15 +158,20 @@ def run(case):
             with tempfile.TemporaryDirectory() as td:
                 path = os.path.join(td, "cache.pickle")
 
+                # the call form is decided by the case text: one positional argument, the same value as a keyword argument
+                # behind a constant positional one, or split over two positional arguments
+                form = sum(map(ord, sx.show(case))) % 3
+
                 @cu.compute_lazy(path, force_to_compute=force)
-                def f(a):
-                    calls.append(a)
-                    return a * a + 1
+                def f(a, b=0, *, x=0):
+                    calls.append(a + b + x)
+                    return (a + b + x) * (a + b + x) + 1
 
                 out = ["ok"]
                 for a in case[2:]:
                     n0 = len(calls)
-                    v = f(int(a))
+                    a = int(a)
+                    v = f(a) if form == 0 else f(7, x=a - 7) if form == 1 else f(3, a - 3)
                     out.append([v, "1" if len(calls) > n0 else "0"])
             return out
         if k == "lazy2":
